@@ -22,8 +22,8 @@ func init() {
 		Technique: "table agreement (HopHeaders literal vs RFC 7540 8.1.2.2), value-flow of the response header map and status, guard analysis on go/ssa of writeChunk / encodeHeaders / responseWriter.write, feasible-path enumeration of writeResHeaders.writeFrame",
 		Meta: core.Meta{
 			Level:       "other",
-			Explanation: "Decides structural clauses of the HTTP/2 response writer (bfe_http2): (1) the HopHeaders table contains, in canonical spelling and with value true, every connection-specific field of RFC 7540 8.1.2.2 and is never mutated after package initialisation; (2) cloneHeader copies a key only when HopHeaders[key] is false; (3) responseWriterState.snapHeader is assigned only cloneHeader(rws.handlerHeader) and status only the WriteHeader argument under !wroteHeader; (4) in writeChunk the response HEADERS request carries h = rws.snapHeader, httpResCode = rws.status, the stream's id, is sent only under !sentHeader after sentHeader was set, ends the stream whenever the request method is HEAD and otherwise only under handlerDone && !hasTrailers && len(p)==0; (5) every DATA write (writeDataFromHandler, called only from writeChunk) is excluded for HEAD, carries exactly the chunk p, is preceded by the response HEADERS, and may carry END_STREAM only under handlerDone && !hasTrailers; responseWriter.write hands bytes to the buffer only when bodyAllowedForStatus(status), which is false for 1xx, 204 and 304; (6) the trailers HEADERS request is the only one with trailers set, has no status, always has endStream true, is issued only under handlerDone && hasTrailers and no DATA can follow it; (7) encodeHeaders emits a field only with the name returned by lowerHeader (a table hit or strings.ToLower), after validHeaderFieldName(name) and validHeaderFieldValue(value), and transfer-encoding only with value trailers; writeResHeaders.writeFrame emits :status (from httpResCode) before any regular field and its fixed names are lower-case; (8) on every feasible successful path writeResHeaders.writeFrame either emits a HEADERS frame or was not asked to end the stream (a request that silently produces no frame loses END_STREAM). Not covered: byte equality of body and trailers with what the handler wrote; END_STREAM exactly once over a whole response (a history of writeChunk calls); header keys the handler stored in non-canonical spelling; HPACK encoding itself (C30/C31).",
-			RuleText:    "obligations = required keys of HopHeaders, mutators of HopHeaders, each map store of cloneHeader, each writer of snapHeader/status, the fields and guards of each writeHeaders request in writeChunk, each writeDataFromHandler call, each buffered write of responseWriter.write, the false-returns of bodyAllowedForStatus, each encKV call of encodeHeaders and writeResHeaders.writeFrame, each return of lowerHeader, each frame-less successful path of writeResHeaders.writeFrame",
+			Explanation: "Decides structural clauses of the HTTP/2 response writer (bfe_http2): (1) the HopHeaders table contains, in canonical spelling and with value true, every connection-specific field of RFC 7540 8.1.2.2 and is never mutated after package initialisation; (2) cloneHeader copies a key only when HopHeaders[key] is false; (3) responseWriterState.snapHeader is assigned only cloneHeader(rws.handlerHeader) and status only the WriteHeader argument under !wroteHeader; (4) in writeChunk the response HEADERS request carries h = rws.snapHeader, httpResCode = rws.status, the stream's id, is sent only under !sentHeader after sentHeader was set, ends the stream whenever the request method is HEAD and otherwise only under handlerDone && !hasTrailers && len(p)==0; (5) every DATA write (writeDataFromHandler, called only from writeChunk) is excluded for HEAD, carries exactly the chunk p, is preceded by the response HEADERS, and may carry END_STREAM only under handlerDone && !hasTrailers; responseWriter.write hands bytes to the buffer only when bodyAllowedForStatus(status), which is false for 1xx, 204 and 304; (6) the trailers HEADERS request is the only one with trailers set, has no status, always has endStream true, is issued only under handlerDone && hasTrailers and no DATA can follow it; (7) encodeHeaders emits a field only with the name returned by lowerHeader (a table hit or strings.ToLower), after validHeaderFieldName(name) and validHeaderFieldValue(value), and transfer-encoding only with value trailers; writeResHeaders.writeFrame emits :status (from httpResCode) before any regular field and its fixed names are lower-case; (8) on every feasible successful path writeResHeaders.writeFrame either emits a HEADERS frame or was not asked to end the stream (a request that silently produces no frame loses END_STREAM); (9) inside writeChunk no call that may add to rws.trailers (the Trailer declarations of the header snapshot via declareTrailer, promoteUndeclaredTrailers; found through static callees and function-value arguments) is reachable from an evaluation of rws.hasTrailers(): the trailer set is complete before END_STREAM is first decided (known finding: promoteUndeclaredTrailers runs after the response HEADERS decision, so \"Trailer:\"-prefixed trailers of a handler that writes no body and never flushes are dropped); (10) pooled objects of bfe_http2 (sorterPool, writeDataPool, responseWriterStatePool, bufWriterPool, fhBytes): after a plain sync.Pool.Put neither the object nor a value sharing its storage (results of calls that received it, e.g. the key slice of sorter.Keys; addresses and loads inside it) is used again, and with a deferred Put no such value is returned, stored into outliving memory or sent, so the key order of a header block cannot be rewritten by another goroutine while it is encoded. Not covered: byte equality of body and trailers with what the handler wrote; END_STREAM exactly once over a whole response (a history of writeChunk calls); header keys the handler stored in non-canonical spelling; HPACK encoding itself (C30/C31); trailer declarations that are skipped on some path without any hasTrailers() evaluation preceding them; pooled objects that escape before the Put through struct fields of other objects or channels (writeDataFromHandler hands its writeData to the serve loop and relies on the done channel).",
+			RuleText:    "obligations = required keys of HopHeaders, mutators of HopHeaders, each map store of cloneHeader, each writer of snapHeader/status, the fields and guards of each writeHeaders request in writeChunk, each writeDataFromHandler call, each buffered write of responseWriter.write, the false-returns of bodyAllowedForStatus, each encKV call of encodeHeaders and writeResHeaders.writeFrame, each return of lowerHeader, each frame-less successful path of writeResHeaders.writeFrame, each call of writeChunk that may write rws.trailers, each sync.Pool.Put of the package",
 			Assumptions: []string{"handlers fill the header map through bfe_http.Header.Set/Add (canonical keys)"},
 		},
 		Run: runC38,
@@ -42,6 +42,13 @@ func init() {
 			{Name: "names-not-lowercased", File: "bfe_http2/write.go", Old: "		k = lowerHeader(k)\n		if !validHeaderFieldName(k) {", New: "		if !validHeaderFieldName(lowerHeader(k)) {", Expect: "encode"},
 			{Name: "value-validation-dropped", File: "bfe_http2/write.go", Old: "			if !validHeaderFieldValue(v) {\n				// TODO: return an error? golang.org/issue/14048\n				// For now just omit it.\n				continue\n			}\n", New: "", Expect: "encode"},
 			{Name: "status-overwritten", File: "bfe_http2/server.go", Old: "	if !rws.wroteHeader {\n		rws.wroteHeader = true\n		rws.status = code\n", New: "	rws.status = code\n	if !rws.wroteHeader {\n		rws.wroteHeader = true\n", Expect: "status-writers"},
+			{Name: "trailers-decision-hoisted-before-declaration", File: "bfe_http2/server.go", Old: "		for _, v := range rws.snapHeader[\"Trailer\"] {\n			foreachHeaderElement(v, rws.declareTrailer)\n		}\n\n		endStream := (rws.handlerDone && !rws.hasTrailers() && len(p) == 0) || isHeadResp\n", New: "		noTrailers := !rws.hasTrailers()\n		for _, v := range rws.snapHeader[\"Trailer\"] {\n			foreachHeaderElement(v, rws.declareTrailer)\n		}\n\n		endStream := (rws.handlerDone && noTrailers && len(p) == 0) || isHeadResp\n", Expect: "trailers-complete|writeChunk:foreachHeaderElement"},
+			{Name: "trailers-declared-only-if-stream-stays-open", File: "bfe_http2/server.go", Old: "		for _, v := range rws.snapHeader[\"Trailer\"] {\n			foreachHeaderElement(v, rws.declareTrailer)\n		}\n\n		endStream := (rws.handlerDone && !rws.hasTrailers() && len(p) == 0) || isHeadResp\n", New: "		endStream := (rws.handlerDone && !rws.hasTrailers() && len(p) == 0) || isHeadResp\n		if !endStream {\n			for _, v := range rws.snapHeader[\"Trailer\"] {\n				foreachHeaderElement(v, rws.declareTrailer)\n			}\n		}\n", Expect: "trailers-complete|writeChunk:foreachHeaderElement"},
+			{Name: "sorter-returned-before-sorting", File: "bfe_http2/server.go", Old: "		sorter.SortStrings(rws.trailers)\n		sorterPool.Put(sorter)\n", New: "		sorterPool.Put(sorter)\n		sorter.SortStrings(rws.trailers)\n", Expect: "pool-lifetime|responseWriterState.promoteUndeclaredTrailers"},
+			{Name: "sorter-returned-before-keys-are-encoded", File: "bfe_http2/write.go", Old: "		defer sorterPool.Put(sorter)\n		keys = sorter.Keys(h)\n", New: "		keys = sorter.Keys(h)\n		sorterPool.Put(sorter)\n", Expect: "pool-lifetime|encodeHeaders"},
+			{Name: "frame-header-buffer-escapes", File: "bfe_http2/frame.go", Old: "	defer fhBytes.Put(bufp)\n	return readFrameHeader(*bufp, r)\n", New: "	defer fhBytes.Put(bufp)\n	lastFrameHeaderBytes = *bufp\n	return readFrameHeader(*bufp, r)\n}\n\nvar lastFrameHeaderBytes []byte\n\nfunc init() {\n	_ = lastFrameHeaderBytes\n", Expect: "pool-lifetime|ReadFrameHeader"},
+			{Name: "silent-sorted-keys-helper-copies", File: "bfe_http2/write.go", Old: "func encodeHeaders(enc *hpack.Encoder, h http.Header, keys []string) int {\n	headerSize := 0 // orignal header size\n	if keys == nil {\n		sorter := sorterPool.Get().(*sorter)\n		// Using defer here, since the returned keys from the\n		// sorter.Keys method is only valid until the sorter\n		// is returned:\n		defer sorterPool.Put(sorter)\n		keys = sorter.Keys(h)\n	}\n", New: "func sortedHeaderKeys(h http.Header) []string {\n	sorter := sorterPool.Get().(*sorter)\n	defer sorterPool.Put(sorter)\n	return append([]string(nil), sorter.Keys(h)...)\n}\n\nfunc encodeHeaders(enc *hpack.Encoder, h http.Header, keys []string) int {\n	headerSize := 0 // orignal header size\n	if keys == nil {\n		keys = sortedHeaderKeys(h)\n	}\n", Silent: true},
+			{Name: "silent-declare-before-date", File: "bfe_http2/server.go", Old: "		var date string\n		if _, ok := rws.snapHeader[\"Date\"]; !ok {\n			// TODO(bradfitz): be faster here, like net/http? measure.\n			date = time.Now().UTC().Format(http.TimeFormat)\n		}\n\n		for _, v := range rws.snapHeader[\"Trailer\"] {\n			foreachHeaderElement(v, rws.declareTrailer)\n		}\n", New: "		for _, v := range rws.snapHeader[\"Trailer\"] {\n			foreachHeaderElement(v, rws.declareTrailer)\n		}\n		var date string\n		if _, ok := rws.snapHeader[\"Date\"]; !ok {\n			date = time.Now().UTC().Format(http.TimeFormat)\n		}\n", Silent: true},
 			{Name: "silent-rename-chunk", File: "bfe_http2/server.go", Old: "	endStream := rws.handlerDone && !rws.hasTrailers()\n	if len(p) > 0 || endStream {\n		// only send a 0 byte DATA frame if we're ending the stream.\n		if err := rws.conn.writeDataFromHandler(rws.stream, p, endStream); err != nil {", New: "	last := rws.handlerDone && !rws.hasTrailers()\n	if last || len(p) > 0 {\n		if err := rws.conn.writeDataFromHandler(rws.stream, p, last); err != nil {", Silent: true},
 		},
 	})
@@ -572,6 +579,366 @@ func runC38(c *core.Ctx) {
 	if wf != nil {
 		h2bC38FramePaths(c, e, wf)
 	}
+
+	// ---- (9) the trailer set is complete before END_STREAM is decided --------------
+	if wc != nil {
+		c38TrailersComplete(c, e, wc, trailersF)
+	}
+
+	// ---- (10) pooled objects are not used after they were returned -----------------
+	c38PoolLifetime(c, e)
+}
+
+// c38TrailersComplete: whether the response HEADERS (or the last DATA) frame
+// carries END_STREAM is decided by rws.hasTrailers(), i.e. by the trailer set
+// recorded so far. A frame that ended the stream cannot be followed by
+// trailers, so everything that can add to the set during writeChunk (parsing
+// the Trailer declarations of the header snapshot, promoting "Trailer:" keys)
+// has to run before the first such decision: no call that may write
+// rws.trailers may be reachable from an evaluation of hasTrailers(). One
+// obligation per writing call site of writeChunk.
+func c38TrailersComplete(c *core.Ctx, e *h2bEnv, wc *ssa.Function, trailersF *types.Var) {
+	// functions of the package that (transitively, through static calls) store to rws.trailers
+	writes := map[*ssa.Function]bool{}
+	for _, s := range core.FieldStores(e.fns, trailersF) {
+		writes[s.Fn] = true
+	}
+	for changed, round := true, 0; changed && round < 4; round++ {
+		changed = false
+		for _, fn := range e.fns {
+			if writes[fn] {
+				continue
+			}
+			for _, call := range core.AllCalls(fn) {
+				if _, isGo := call.(*ssa.Go); isGo {
+					continue
+				}
+				if t := e.real(call.Common().StaticCallee()); t != nil && writes[t] {
+					writes[fn] = true
+					changed = true
+					break
+				}
+			}
+		}
+	}
+	fnOf := func(v ssa.Value) *ssa.Function {
+		switch x := v.(type) {
+		case *ssa.Function:
+			return e.real(x)
+		case *ssa.MakeClosure:
+			f, _ := x.Fn.(*ssa.Function)
+			return e.real(f)
+		}
+		return nil
+	}
+	var readers []ssa.Instruction
+	for _, call := range core.Calls(wc, h2bName("responseWriterState.hasTrailers")) {
+		readers = append(readers, call.(ssa.Instruction))
+	}
+	c.Check("trailers-complete", "writeChunk:decision-reads", wc.Pos(), len(readers) > 0, "writeChunk no longer consults rws.hasTrailers(): the rule that ties END_STREAM to the trailer set has lost its anchor")
+	seen := map[string]int{}
+	for _, call := range core.AllCalls(wc) {
+		cc := call.Common()
+		via := ""
+		if t := e.real(cc.StaticCallee()); t != nil && writes[t] {
+			via = h2bShort(t)
+		}
+		for _, a := range cc.Args {
+			if f := fnOf(a); f != nil && writes[f] {
+				name := "call"
+				if sc := cc.StaticCallee(); sc != nil {
+					name = sc.Name()
+				}
+				via = name + "(" + h2bShort(f) + ")"
+			}
+		}
+		if via == "" {
+			continue
+		}
+		in := call.(ssa.Instruction)
+		k := "writeChunk:" + via
+		seen[k]++
+		if seen[k] > 1 {
+			k += fmt.Sprintf("#%d", seen[k])
+		}
+		var stale ssa.Instruction
+		for _, r := range readers {
+			if r == in {
+				continue
+			}
+			if core.ReachAvoiding(wc, r, nil, h2bInstrIs(in)) != nil {
+				stale = r
+				break
+			}
+		}
+		where := ""
+		if stale != nil {
+			where = " (hasTrailers() at " + c.P.Pos(stale.Pos()) + " runs first)"
+		}
+		c.Check("trailers-complete", k, in.Pos(), stale == nil,
+			"writeChunk can add to rws.trailers through "+via+" after rws.hasTrailers() was already consulted for an END_STREAM decision"+where+": when the handler finished without body bytes the response HEADERS frame is sent with END_STREAM on the strength of the incomplete set and these trailers are never sent")
+	}
+	c.Min("trailers-complete", 3)
+}
+
+// c38AliasCapable: a value of type t can share storage with another object.
+func c38AliasCapable(t types.Type, depth int) bool {
+	if t == nil || depth > 6 {
+		return false
+	}
+	if types.Identical(t, types.Universe.Lookup("error").Type()) {
+		return false // errors do not alias buffers
+	}
+	switch u := t.Underlying().(type) {
+	case *types.Pointer, *types.Slice, *types.Map, *types.Chan, *types.Signature, *types.Interface:
+		return true
+	case *types.Struct:
+		for i := 0; i < u.NumFields(); i++ {
+			if c38AliasCapable(u.Field(i).Type(), depth+1) {
+				return true
+			}
+		}
+	case *types.Array:
+		return c38AliasCapable(u.Elem(), depth+1)
+	case *types.Tuple:
+		for i := 0; i < u.Len(); i++ {
+			if c38AliasCapable(u.At(i).Type(), depth+1) {
+				return true
+			}
+		}
+	}
+	return false
+}
+
+func c38IsPoolCall(cc *ssa.CallCommon, method string) bool {
+	sc := cc.StaticCallee()
+	if sc == nil || sc.Name() != method || sc.Signature.Recv() == nil {
+		return false
+	}
+	return core.TypeStr(sc.Signature.Recv().Type()) == "*sync.Pool"
+}
+
+// c38Aliases: x (the object handed to Pool.Put) and every value of its function
+// that may share storage with it: the same object under another static type,
+// addresses and loads inside it, results of calls that received it (slices
+// such as sorter.Keys(h) live in the pooled object), locals it was stored in.
+func c38Aliases(x ssa.Value) map[ssa.Value]bool {
+	// back to the origin through type changes
+	for i := 0; i < 8; i++ {
+		switch y := x.(type) {
+		case *ssa.MakeInterface:
+			x = y.X
+			continue
+		case *ssa.ChangeType:
+			x = y.X
+			continue
+		case *ssa.ChangeInterface:
+			x = y.X
+			continue
+		case *ssa.TypeAssert:
+			x = y.X
+			continue
+		}
+		break
+	}
+	set := map[ssa.Value]bool{x: true}
+	work := []ssa.Value{x}
+	add := func(v ssa.Value) {
+		if v != nil && !set[v] {
+			set[v] = true
+			work = append(work, v)
+		}
+	}
+	for len(work) > 0 {
+		v := work[len(work)-1]
+		work = work[:len(work)-1]
+		refs := v.Referrers()
+		if refs == nil {
+			continue
+		}
+		for _, r := range *refs {
+			switch y := r.(type) {
+			case *ssa.MakeInterface, *ssa.ChangeType, *ssa.ChangeInterface, *ssa.TypeAssert, *ssa.Slice, *ssa.FieldAddr, *ssa.IndexAddr, *ssa.Phi, *ssa.SliceToArrayPointer:
+				add(r.(ssa.Value))
+			case *ssa.Extract:
+				if c38AliasCapable(y.Type(), 0) {
+					add(y)
+				}
+			case *ssa.UnOp:
+				if y.Op == token.MUL && c38AliasCapable(y.Type(), 0) {
+					add(y)
+				}
+			case *ssa.Field:
+				if c38AliasCapable(y.Type(), 0) {
+					add(y)
+				}
+			case *ssa.Index:
+				if c38AliasCapable(y.Type(), 0) {
+					add(y)
+				}
+			case *ssa.Lookup:
+				if y.X == v && c38AliasCapable(y.Type(), 0) {
+					add(y)
+				}
+			case *ssa.Call:
+				if c38IsPoolCall(&y.Call, "Put") || c38IsPoolCall(&y.Call, "Get") {
+					continue
+				}
+				if b, ok := y.Call.Value.(*ssa.Builtin); ok {
+					// append shares storage with its first argument only
+					if b.Name() == "append" && len(y.Call.Args) > 0 && y.Call.Args[0] == v {
+						add(y)
+					}
+					continue
+				}
+				if c38AliasCapable(y.Type(), 0) {
+					add(y)
+				}
+			case *ssa.Store:
+				if y.Val != v {
+					continue
+				}
+				base := y.Addr
+				for {
+					switch b := base.(type) {
+					case *ssa.FieldAddr:
+						base = b.X
+						continue
+					case *ssa.IndexAddr:
+						base = b.X
+						continue
+					}
+					break
+				}
+				if a, ok := base.(*ssa.Alloc); ok {
+					add(a)
+				}
+			}
+		}
+	}
+	return set
+}
+
+// c38PoolLifetime: an object given back with sync.Pool.Put belongs to the next
+// goroutine that Gets it. For every Put in bfe_http2: (a) after a plain Put no
+// instruction of the function may still use the object or a value sharing its
+// storage (until the variable is re-defined); (b) with a deferred Put no such
+// value may leave the function: not as a result, not stored into memory that
+// outlives the call, not sent on a channel. The key slice returned by
+// sorter.Keys is the motivating case: it lives in the pooled sorter, and the
+// header block is encoded from it.
+func c38PoolLifetime(c *core.Ctx, e *h2bEnv) {
+	usesAlias := func(in ssa.Instruction, set map[ssa.Value]bool) bool {
+		if _, ok := in.(*ssa.DebugRef); ok {
+			return false
+		}
+		for _, op := range in.Operands(nil) {
+			if *op != nil && set[*op] {
+				return true
+			}
+		}
+		return false
+	}
+	poolName := func(cc *ssa.CallCommon) string {
+		if len(cc.Args) > 0 {
+			return core.Render(cc.Args[0])
+		}
+		return "pool"
+	}
+	for _, fn := range e.fns {
+		n := 0
+		for _, call := range core.AllCalls(fn) {
+			cc := call.Common()
+			if !c38IsPoolCall(cc, "Put") || len(cc.Args) != 2 {
+				continue
+			}
+			n++
+			in := call.(ssa.Instruction)
+			key := fmt.Sprintf("%s:put#%d(%s)", h2bShort(fn), n, poolName(cc))
+			set := c38Aliases(cc.Args[1])
+			switch call.(type) {
+			case *ssa.Defer:
+				var bad ssa.Instruction
+				what := ""
+				for _, x := range h2bAll(fn) {
+					switch y := x.(type) {
+					case *ssa.Return:
+						for _, rv := range core.RetVals(y) {
+							if set[rv] && c38AliasCapable(rv.Type(), 0) {
+								bad, what = x, "is returned to the caller"
+							}
+						}
+						for _, rv := range y.Results {
+							if set[rv] && c38AliasCapable(rv.Type(), 0) {
+								bad, what = x, "is returned to the caller"
+							}
+						}
+					case *ssa.Store:
+						if !set[y.Val] || !c38AliasCapable(y.Val.Type(), 0) {
+							continue
+						}
+						base := y.Addr
+						for {
+							switch b := base.(type) {
+							case *ssa.FieldAddr:
+								base = b.X
+								continue
+							case *ssa.IndexAddr:
+								base = b.X
+								continue
+							}
+							break
+						}
+						if _, local := base.(*ssa.Alloc); !local && !set[base] {
+							bad, what = x, "is stored into "+core.Render(y.Addr)
+						}
+					case *ssa.Send:
+						if set[y.X] {
+							bad, what = x, "is sent on a channel"
+						}
+					case *ssa.MapUpdate:
+						if (set[y.Value] || set[y.Key]) && !set[y.Map] {
+							bad, what = x, "is stored into a map"
+						}
+					}
+				}
+				if bad != nil && h2bPos(bad).IsValid() {
+					what += " at " + c.P.Pos(h2bPos(bad))
+				}
+				c.Check("pool-lifetime", key, in.Pos(), bad == nil,
+					"the object is returned to "+poolName(cc)+" by a deferred Put when "+h2bShort(fn)+" exits, but a value that shares its storage "+what+": another goroutine that Gets the object rewrites it while it is still being read here (a header block is then encoded from another response's keys)")
+			case *ssa.Call:
+				root := cc.Args[1]
+				var def ssa.Instruction
+				for v := root; ; {
+					switch y := v.(type) {
+					case *ssa.MakeInterface:
+						v = y.X
+						continue
+					case *ssa.ChangeType:
+						v = y.X
+						continue
+					case *ssa.TypeAssert:
+						v = y.X
+						continue
+					}
+					def, _ = v.(ssa.Instruction)
+					break
+				}
+				bad := core.ReachAvoiding(fn, in, func(x ssa.Instruction) bool { return def != nil && x == def },
+					func(x ssa.Instruction) bool { return usesAlias(x, set) })
+				at := ""
+				if bad != nil {
+					at = " at " + c.P.Pos(h2bPos(bad))
+				}
+				c.Check("pool-lifetime", key, in.Pos(), bad == nil,
+					"after "+poolName(cc)+".Put the object (or a value sharing its storage) is still used"+at+": the pool may already have handed it to another goroutine")
+			default:
+				c.Check("pool-lifetime", key, in.Pos(), false, "sync.Pool.Put is started with `go`: the lifetime of the pooled object cannot be followed")
+			}
+		}
+	}
+	c.Min("pool-lifetime", 5)
 }
 
 // h2bC38FramePaths enumerates the feasible paths of writeResHeaders.writeFrame
